@@ -3754,6 +3754,7 @@ func (a *Association) movePendingDataChunkToInflightQueue(chunkPayload *chunkPay
 	// Assign TSN and original send time
 	chunkPayload.tsn = a.generateNextTSN()
 	chunkPayload.since = time.Now()
+	chunkPayload.firstSent = chunkPayload.since
 	chunkPayload.nSent = 1
 
 	a.checkPartialReliabilityStatus(chunkPayload)
@@ -3997,7 +3998,9 @@ func (a *Association) checkPartialReliabilityStatus(chunkPayload *chunkPayloadDa
 				)
 			}
 		} else if stream.reliabilityType == ReliabilityTypeTimed {
-			elapsed := int64(time.Since(chunkPayload.since).Seconds() * 1000)
+			// the lifetime runs from the first transmission: since is reset to the
+			// retransmission time just before this check, which made elapsed always 0
+			elapsed := int64(time.Since(chunkPayload.firstSent).Seconds() * 1000)
 			if elapsed >= int64(stream.reliabilityValue) {
 				chunkPayload.setAbandoned(true)
 				a.rackRemove(chunkPayload)
